@@ -33,12 +33,12 @@ theorem C09_decodes_and_reencodes (a b : Ty) (hf : fungible a b = true) (hwb : b
 
 /-- a fungible replacement of an entry type is admissible in the cross-version theorem (C07) -/
 theorem C09_entry_replacement (a b : Ty) (hf : fungible a b = true) (hwb : b.wf = true)
-    (hfit : ∀ v, valid a v = true → valid b v = true) : XRT a b := by
-  intro v h bs h' hva he
+    (hfit : ∀ v, valid a v = true → valid b v = true) : XR a b id := by
+  intro v h bs h' prior hva he
   have hvb := hfit v hva
   have hw := (wire a b hf v hva hvb).1 h
   rw [hw] at he
-  exact (rt b hwb).decInto (dflt b) hvb he
+  exact (rt b hwb).decInto prior hvb he
 
 /-! The pairs the documentation declares fungible evaluate to true (and near misses to false). -/
 section documented
